@@ -128,6 +128,35 @@ declarations:
       function_suffix: _mutable
 - decl: void takes(Cls *c, const Cls &d)
 - decl: int byVal(Cls c, int extra)
+# overloads that differ only in the constness of a class argument: each C name reaches the overload it was made for
+- decl: int peek(Cls &c)
+  format:
+    function_suffix: _mut
+  options:
+    wrap_fortran: false
+    wrap_python: false
+    wrap_lua: false
+- decl: int peek(const Cls &c)
+  format:
+    function_suffix: _const
+  options:
+    wrap_fortran: false
+    wrap_python: false
+    wrap_lua: false
+- decl: int peekp(Cls *c)
+  format:
+    function_suffix: _mut
+  options:
+    wrap_fortran: false
+    wrap_python: false
+    wrap_lua: false
+- decl: int peekp(const Cls *c)
+  format:
+    function_suffix: _const
+  options:
+    wrap_fortran: false
+    wrap_python: false
+    wrap_lua: false
 # a second class, declared after the first and sorting before it: each object is released by its own class's destructor
 - decl: class Abc
   declarations:
@@ -204,6 +233,17 @@ declarations:
   - decl: namespace inner
     declarations:
     - decl: int innerf(int a)
+    # a class result by value from a function two namespaces below the class: released by the class's destructor like any other
+    - decl: Cls innerVal(int id)
+      options:
+        wrap_fortran: false
+        wrap_python: false
+        wrap_lua: false
+    - decl: Cls *innerNew(int id) +owner(caller)
+      options:
+        wrap_fortran: false
+        wrap_python: false
+        wrap_lua: false
 """
 SCEN_HPP = r"""
 #ifndef CEE_HPP
@@ -229,6 +269,7 @@ public:
 };
 void takes(Cls *c, const Cls &d);
 int byVal(Cls c, int extra);
+int peek(Cls &c); int peek(const Cls &c); int peekp(Cls *c); int peekp(const Cls *c);
 class Abc { int m_id; public: Abc(int id); ~Abc(); int id() const; };
 Abc *newAbc(int id);
 template<typename T> int put(T v);
@@ -262,7 +303,7 @@ int tally(int a, int b, int c, int d);
 void fillText(char *text, int cap);
 int nextValue();
 int bump(int by);
-namespace ns { int nsf(int a); namespace inner { int innerf(int a); } }
+namespace ns { int nsf(int a); namespace inner { int innerf(int a); Cls innerVal(int id); Cls *innerNew(int id); } }
 #endif
 """
 SCEN_CPP = A.SUBJECT_PRELUDE + r"""
@@ -321,7 +362,13 @@ int nextValue() { vt_counter += 1; vt_txt("RECV nextValue n="); vt_i(vt_counter)
 int bump(int by) { vt_counter += by; vt_txt("RECV bump n="); vt_i(vt_counter); vt_txt("\n"); return vt_counter; }
 double total(const double *v, int n) { double s = 0; vt_txt("RECV total(double) n="); vt_i(n); vt_txt("\n"); for (int i = 0; i < n; i++) s += v[i]; return s; }
 namespace ns { int nsf(int a) { vt_txt("RECV ns::nsf a="); vt_i(a); vt_txt("\n"); return a + 1; }
-namespace inner { int innerf(int a) { vt_txt("RECV ns::inner::innerf a="); vt_i(a); vt_txt("\n"); return a + 2; } } }
+namespace inner { int innerf(int a) { vt_txt("RECV ns::inner::innerf a="); vt_i(a); vt_txt("\n"); return a + 2; }
+Cls innerVal(int id) { vt_txt("RECV ns::inner::innerVal id="); vt_i(id); vt_txt("\n"); return Cls(id); }
+Cls *innerNew(int id) { vt_txt("RECV ns::inner::innerNew id="); vt_i(id); vt_txt("\n"); return new Cls(id); } } }
+int peek(Cls &c) { vt_txt("RECV peek(mut) c="); vt_i(c.id()); vt_txt("\n"); return c.add(0) + 2000; }
+int peek(const Cls &c) { vt_txt("RECV peek(const) c="); vt_i(c.id()); vt_txt("\n"); return c.id() + 1000; }
+int peekp(Cls *c) { vt_txt("RECV peekp(mut) c="); vt_i(c->id()); vt_txt("\n"); return c->id() + 4000; }
+int peekp(const Cls *c) { vt_txt("RECV peekp(const) c="); vt_i(c->id()); vt_txt("\n"); return c->id() + 3000; }
 """
 
 
@@ -357,7 +404,7 @@ def scenario_case(args):
     if case:
         naming = args[1]
     d = {"T": T, "P": P, "ctor": NC("ctor", ""), "dtor": NC("dtor", ""), "id": NC("id", ""), "add": NC("add", ""), "slot": NC("slot", ""), "twice": NC("twice", ""),
-         "rename": NC("rename", ""), "name": NC("name", ""), "whichc": NC("which", "_const"), "whichm": NC("which", "_mutable"), "takes": N("takes", ""), "byval": N("byVal", ""), "TA": P + cs("Abc"), "newabc": N("newAbc", ""), "abcid": NA("id", ""), "abcctor": NA("ctor", ""),
+         "rename": NC("rename", ""), "name": NC("name", ""), "whichc": NC("which", "_const"), "whichm": NC("which", "_mutable"), "takes": N("takes", ""), "byval": N("byVal", ""), "peekm": N("peek", "_mut"), "peekc": N("peek", "_const"), "peekpm": N("peekp", "_mut"), "peekpc": N("peekp", "_const"), "innerval": NI("innerVal", ""), "innernew": NI("innerNew", ""), "TA": P + cs("Abc"), "newabc": N("newAbc", ""), "abcid": NA("id", ""), "abcctor": NA("ctor", ""),
          "p1i": N("put", "_one_int"), "p1d": N("put", "_one_double"), "p2i": N("put", "_two_int"), "p2d": N("put", "_two_double"), "find": N("findCls", ""), "new": N("newCls", ""), "ref": N("refCls", ""), "cref": N("crefCls", ""),
          "val": N("valCls", ""), "next": N("nextColor", ""), "level": N("levelValue", ""), "over0": N("over", "_0"), "over1": N("over", "_1"), "pick0": N("pick", ""), "pick1": N("pick", "_both"), "dflt0": N("dflt", "_0"),
          "dflt1": N("dflt", "_1"), "z0": N("zdflt", "_0"), "z1": N("zdflt", "_1"), "z2": N("zdflt", "_2"), "grade": N("gradeValue", ""), "sumrank": N("sumRank", ""), "tint": N("tmpl", "_int"), "tdbl": N("tmpl", "_double"), "w0": N("weigh", "_0"), "w1": N("weigh", "_1"), "order": N("order", ""), "nsf": NN("nsf", ""),
@@ -398,6 +445,9 @@ int main(void) {
   printf("OBS weigh"); obs_d(%(w0)s(3, 2.5)); obs_d(%(w1)s(4000000000L, 0.5f)); printf("\n");
   %(order)s(1, 2.5, "three", true); %(order)s(-1, -2.5, "", false);
   printf("OBS ns"); obs_i(%(nsf)s(1)); obs_i(%(innerf)s(1)); printf("\n");
+  printf("OBS peek"); obs_i(%(peekc)s(&a)); obs_i(%(peekm)s(&b)); obs_i(%(peekpc)s(&b)); obs_i(%(peekpm)s(&a)); printf("\n");
+  %(innerval)s(12, &r); printf("OBS innerval"); obs_i(%(id)s(&r)); printf("\n"); %(P)sSHROUD_memory_destructor((%(P)sSHROUD_capsule_data *) &r);
+  %(innernew)s(13, &r); printf("OBS innernew"); obs_i(%(id)s(&r)); printf("\n"); %(P)sSHROUD_memory_destructor((%(P)sSHROUD_capsule_data *) &r);
   %(dtor)s(&a); %(dtor)s(&b);
   return 0;
 }
@@ -417,7 +467,7 @@ int main(void) {
                 naming, d[key], "const" if m.group(1) else "not const", "const" if is_const_method else "not const")))
     exp_obs = ["OBS ids 5 9", "OBS add 8 13 4", "OBS twice 42", "OBS slot 5 9", "OBS names 0:[] 3:[bee]", "OBS which 1 2 1", "OBS byval 7 0", "OBS find 100 101", "OBS ref 3:[zed] 3:[zed] 100", "OBS new 7 8", "OBS val 8", "OBS abc 3 4", "OBS put 11 12 21 22",
                "OBS color 3 4 0", "OBS level 110 100 101", "OBS dflt 32 34", "OBS zdflt 30 34 34", "OBS grade 1001 1005 1006 1100 1101", "OBS sumrank 6", "OBS tmpl 42 " + A.rnd(A.NATIVE["double"], 2.5),
-               "OBS weigh %s %s" % (A.rnd(A.NATIVE["double"], 7.5), A.rnd(A.NATIVE["double"], 2e9)), "OBS ns 2 3"]
+               "OBS weigh %s %s" % (A.rnd(A.NATIVE["double"], 7.5), A.rnd(A.NATIVE["double"], 2e9)), "OBS ns 2 3", "OBS peek 1005 2009 3009 4005", "OBS innerval 12", "OBS innernew 13"]
     D = A.NATIVE["double"]
     exp_recv = ["RECV Cls::Cls id=5", "RECV Cls::Cls id=9", "RECV Cls::add this=5 x=3", "RECV Cls::add this=9 x=4", "RECV Cls::add this=5 x=-1",
                 "RECV Cls::twice x=21", "RECV Cls::rename this=9 name=3:[bee]", "RECV Cls::rename this=5 name=0:[]",
@@ -440,7 +490,11 @@ int main(void) {
                 "RECV tmpl<int> a=41", "RECV tmpl<double> a=" + A.rnd(D, 1.25),
                 "RECV weigh<int,double> count=3 scale=" + A.rnd(D, 2.5), "RECV weigh<long,float> count=4000000000 scale=" + A.rnd(A.NATIVE["float"], 0.5),
                 "RECV order a=1 b=%s c=5:[three] d=1" % A.rnd(D, 2.5), "RECV order a=-1 b=%s c=0:[] d=0" % A.rnd(D, -2.5),
-                "RECV ns::nsf a=1", "RECV ns::inner::innerf a=1", "RECV Cls::~Cls this=5", "RECV Cls::~Cls this=9"]
+                "RECV ns::nsf a=1", "RECV ns::inner::innerf a=1",
+                "RECV peek(const) c=5", "RECV peek(mut) c=9", "RECV Cls::add this=9 x=0", "RECV peekp(const) c=9", "RECV peekp(mut) c=5",
+                "RECV ns::inner::innerVal id=12", "RECV Cls::Cls id=12", "@copies12", "RECV Cls::~Cls this=12",
+                "RECV ns::inner::innerNew id=13", "RECV Cls::Cls id=13", "RECV Cls::~Cls this=13",
+                "RECV Cls::~Cls this=5", "RECV Cls::~Cls this=9"]
     errs = list(locals().get("proto_errs", []))
     try:
         objs = build.compile_c_family(out, sorted(f for f in os.listdir(out) if f.endswith((".c", ".cpp"))), "cxx")
@@ -461,10 +515,11 @@ int main(void) {
     # by-value return: copies made by the wrapper (copy + destructor of the temporary) are its own business
     gi = 0
     for e in exp_recv:
-        if e == "@copies":
-            while gi < len(got_recv) and (got_recv[gi].startswith("RECV Cls::copy id=8") or
-                                          (got_recv[gi] == "RECV Cls::~Cls this=8" and gi + 1 < len(got_recv) and
-                                           got_recv[gi + 1].startswith(("RECV Cls::copy id=8", "RECV Cls::~Cls this=8")))):
+        if e.startswith("@copies"):
+            cid = e[len("@copies"):] or "8"
+            while gi < len(got_recv) and (got_recv[gi].startswith("RECV Cls::copy id=" + cid) or
+                                          (got_recv[gi] == "RECV Cls::~Cls this=" + cid and gi + 1 < len(got_recv) and
+                                           got_recv[gi + 1].startswith(("RECV Cls::copy id=" + cid, "RECV Cls::~Cls this=" + cid)))):
                 gi += 1
             continue
         g = got_recv[gi] if gi < len(got_recv) else "(missing)"
